@@ -957,6 +957,8 @@ func conj(a ...MalType) (MalType, error) {
 
 func seq(seq MalType) (MalType, error) {
 	switch arg := seq.(type) {
+	case nil:
+		return nil, nil
 	case List:
 		if len(arg.Val) == 0 {
 			return nil, nil
@@ -974,6 +976,9 @@ func seq(seq MalType) (MalType, error) {
 		}
 		return List{Val: slc}, nil
 	case string:
+		if Keyword_Q(arg) {
+			break
+		}
 		if len(arg) == 0 {
 			return nil, nil
 		}
